@@ -150,6 +150,9 @@ def items_common(mtype, var="mod", pfx="k_", in_project=True) -> List[Item]:
         Item("relative_note", I32(pfx + "rel"), f"{var}.mod_relative_note = {{v}}", 2, ri(-2**31, 2**31 - 1)),
         Item("scale", U32(pfx + "scale"), f"{var}.scale = {{v}}", 1, ri(0, 2**32 - 1)),
     ]
+    # a type whose controller list reuses a common attribute name (Smooth.scale) exposes the
+    # controller under that name; the common field is then not separately settable (see C09)
+    out = [it for it in out if it.key not in cls.controllers]
     for ch in "rgb":
         out.append(Item("color." + ch, U8(pfx + ch), f"{var}.color = tuple({{v}} if _i == {'rgb'.index(ch)} else _c for _i, _c in enumerate({var}.color))", 1, ri(0, 255)))
     if in_project:
